@@ -1,4 +1,6 @@
-(* C11 proofs: case analysis over the finite part of the script, lia over the times. *)
+(* C11 proofs (phase 2, repaired code): case analysis over the finite part of the script, lia over the times.
+   The clean-up flags and the lookup timeout are constants generated from the source; the proofs compute with
+   them, so a source change that drops one of the constructs breaks the proof of the theorem that needs it. *)
 From Slsk Require Import Base.Tac.
 From SlskGen Require Import PortGen.
 From Slsk Require Import C11.Model.
@@ -9,8 +11,11 @@ Open Scope Z_scope.
 #[local] Arguments Z.leb : simpl never.
 
 Ltac unf := unfold result, no_cancel, fallback_nc, race_nc, cancelled_at, direct, indirect, connect_end, lookup,
-  d_connecting, running_at, end_time, ind_fail_residue, server_alive, direct_ok, indirect_ok, lookup_ok, returns,
-  residue_free, PEER_CONNECT_TIMEOUT, PEER_INDIRECT_CONNECT_TIMEOUT, LOOKUP_HAS_TIMEOUT, LOOKUP_TIMEOUT in *.
+  d_connecting, running_at, end_time, ind_fail_residue, ind_cancel_residue, dir_cancel_residue, loser_indirect, loser_direct,
+  loser_orphan, F, server_alive, direct_ok, indirect_ok, lookup_ok, returns, residue_free,
+  PEER_CONNECT_TIMEOUT, PEER_INDIRECT_CONNECT_TIMEOUT, LOOKUP_HAS_TIMEOUT, LOOKUP_TIMEOUT,
+  CONNECT_CLOSES_ON_CANCEL, ATTEMPT_CLOSES_ON_CANCEL, INDIRECT_CLEANUP_ALWAYS, RACE_CANCELS_LOSER, RACE_DISCONNECTS_SECOND,
+  RACE_CANCELS_ON_CANCEL, INDIRECT_CLOSES_ARRIVED_ON_CANCEL, PIERCE_IGNORES_DONE_WAITER in *.
 
 Ltac cases :=
   repeat match goal with
@@ -18,89 +23,90 @@ Ltac cases :=
   | H : context [if ?b then _ else _] |- _ => let E := fresh "E" in destruct b eqn:E
   end.
 
-(* the lookup of the direct attempt has no timeout today; the theorems below that need it to end say so *)
-Definition lookup_ends (s : script) : Prop := LOOKUP_HAS_TIMEOUT = true \/ ad s <> ANoReply.
-
-Lemma success_iff_partial s :
-  cancel s = None -> (md s = Race \/ lookup_ends s) ->
-  (returns (result s) = true <-> direct_ok s = true \/ indirect_ok s = true).
+Lemma success_iff s :
+  cancel s = None -> (returns (result s) = true <-> direct_ok s = true \/ indirect_ok s = true).
 Proof.
-  destruct s as [m a adl d dd i idl c]. cbn. intros -> Hm. unfold lookup_ends in Hm. cbn in Hm.
-  destruct m, a, d, i; unf; cbn; cases; cbn; split; intros; try tauto; try discriminate; try lia;
-    try (destruct Hm as [?|[?|?]]; congruence); intuition (try discriminate; try lia).
+  destruct s as [m a adl d dd i idl c sc]. cbn. intros ->.
+  destruct m, a, d, i, sc; unf; cbn; cases; cbn; split; intros; try tauto; try discriminate; try lia;
+    intuition (try discriminate; try lia).
 Qed.
 
-Lemma success_iff_refuted :
-  exists s, cancel s = None /\ delays_ok s /\ indirect_ok s = true /\ returns (result s) = false.
-Proof.
-  exists (mkS Fallback ANoReply 0 DOk 0 IPierce 0 None). unfold delays_ok. cbn. repeat split; try lia; reflexivity.
-Qed.
-
-Lemma terminates_partial s :
-  cancel s = None -> lookup_ends s -> delays_ok s ->
+Lemma terminates s :
+  cancel s = None -> delays_ok s ->
   out (result s) <> OHang /\
   exists t, at_time (result s) = Some t /\
-            t <= ad_delay s + Z.max LOOKUP_TIMEOUT 0 + PEER_CONNECT_TIMEOUT + PEER_INDIRECT_CONNECT_TIMEOUT.
+            t <= ad_delay s + LOOKUP_TIMEOUT + PEER_CONNECT_TIMEOUT + PEER_INDIRECT_CONNECT_TIMEOUT.
 Proof.
-  destruct s as [m a adl d dd i idl c]. unfold delays_ok, lookup_ends. cbn. intros -> Hm (H1 & H2 & H3).
-  destruct m, a, d, i; unf; cbn; cases; cbn; (split; [try discriminate; try (destruct Hm; congruence)|]);
-    try (destruct Hm; congruence); eexists; (split; [reflexivity|]); lia.
+  destruct s as [m a adl d dd i idl c sc]. unfold delays_ok. cbn. intros -> (H1 & H2 & H3).
+  destruct m, a, d, i, sc; unf; cbn; cases; cbn; (split; [discriminate|]);
+    eexists; (split; [reflexivity|]); lia.
 Qed.
 
-Lemma terminates_refuted :
-  exists s, cancel s = None /\ delays_ok s /\ out (result s) = OHang.
-Proof. exists (mkS Fallback ANoReply 0 DOk 0 IPierce 0 None). unfold delays_ok. cbn. repeat split; lia. Qed.
-
-Lemma terminates_refuted_race :
-  exists s, md s = Race /\ cancel s = None /\ delays_ok s /\ out (result s) = OHang.
-Proof. exists (mkS Race ANoReply 0 DOk 0 ICannot 1 None). unfold delays_ok. cbn. repeat split; lia. Qed.
-
-Lemma residue_free_partial s :
-  md s = Fallback -> cancel s = None -> ir s <> ISendFail -> residue_free (result s) = true.
+(* a cancelled request ends at the moment of the cancellation *)
+Lemma nc_not_cancelled s : out (no_cancel s) <> OCancelled.
 Proof.
-  destruct s as [m a adl d dd i idl c]. cbn. intros -> -> Hi.
-  destruct a, d, i; unf; cbn; cases; cbn; try reflexivity; congruence.
+  destruct s as [m a adl d dd i idl c sc].
+  destruct m, a, d, i, sc; unf; cbn; cases; cbn; discriminate.
 Qed.
 
-(* F16: race mode, the direct attempt wins while the indirect one waits: both waiters stay registered *)
-Lemma residue_free_refuted :
-  exists s, cancel s = None /\ delays_ok s /\ returns (result s) = true /\ waiters (result s) = true.
-Proof. exists (mkS Race AGiven 0 DOk 1 INothing 0 None). unfold delays_ok. cbn. repeat split; lia. Qed.
-
-(* F15 seen from the request: race mode, the pierce arrives while the direct attempt is in open_connection *)
-Lemma residue_free_refuted_connecting :
-  exists s, cancel s = None /\ delays_ok s /\ returns (result s) = true /\ r_connecting (result s) = true.
-Proof. exists (mkS Race AGiven 0 DOk 4 IPierce 2 None). unfold delays_ok. cbn. repeat split; lia. Qed.
-
-(* cancelling the request: fallback leaves the waiters (F16) or the CONNECTING object (F15); race leaves both
-   attempt tasks running *)
-Lemma residue_free_refuted_cancel :
-  exists s x, cancel s = Some x /\ out (result s) = OCancelled /\ waiters (result s) = true.
-Proof. exists (mkS Fallback AGiven 0 DRefused 1 INothing 0 (Some 5)), 5. cbn. repeat split. Qed.
-
-Lemma residue_free_refuted_cancel_race :
-  exists s x, md s = Race /\ cancel s = Some x /\ out (result s) = OCancelled /\ orphans (result s) = true.
-Proof. exists (mkS Race AGiven 0 DOk 3 INothing 0 (Some 2)), 2. cbn. repeat split. Qed.
-
-(* what a request leaves behind is never more than: one CONNECTING object, the waiter pair, the orphan tasks;
-   and a request that was not cancelled leaves no orphan tasks *)
-Lemma no_orphans_without_cancel s : cancel s = None -> orphans (result s) = false.
+Lemma cancelled_at_time s x : at_time (cancelled_at s x) = Some x /\ out (cancelled_at s x) = OCancelled.
 Proof.
-  destruct s as [m a adl d dd i idl c]. cbn. intros ->.
-  destruct m, a, d, i; unf; cbn; cases; reflexivity.
+  destruct s as [m a adl d dd i idl c sc].
+  destruct m; unfold cancelled_at, F, RACE_CANCELS_ON_CANCEL; cbn; cases; cbn; split; reflexivity.
 Qed.
 
-(* which attempt's connection is returned *)
+Lemma cancel_is_prompt s x :
+  cancel s = Some x -> out (result s) = OCancelled -> at_time (result s) = Some x.
+Proof.
+  intros Hc. unfold result. rewrite Hc.
+  destruct (at_time (no_cancel s)) as [t|]; [destruct (x <? t)|]; intros H;
+    try (now apply cancelled_at_time); now apply nc_not_cancelled in H.
+Qed.
+
+Lemma dir_cancel_residue_false b : dir_cancel_residue b = false.
+Proof. destruct b; reflexivity. Qed.
+Lemma ind_cancel_residue_false : ind_cancel_residue = false.
+Proof. reflexivity. Qed.
+Lemma ind_fail_residue_false s : ind_fail_residue s = false.
+Proof. unfold ind_fail_residue. destruct (ir s); try reflexivity. destruct (server_alive s); reflexivity. Qed.
+
+Lemma residue_free_cancelled s x : residue_free (cancelled_at s x) = true.
+Proof.
+  unfold cancelled_at, residue_free, F. destruct (md s); cbn.
+  - destruct (running_at (direct s 0) x); cbn; now rewrite ?dir_cancel_residue_false, ?ind_cancel_residue_false.
+  - unfold RACE_CANCELS_ON_CANCEL. cbn. rewrite dir_cancel_residue_false, ind_fail_residue_false.
+    unfold ind_cancel_residue, INDIRECT_CLEANUP_ALWAYS. cbn. now rewrite !andb_false_r.
+Qed.
+
+Lemma residue_free_nc s : residue_free (no_cancel s) = true.
+Proof.
+  destruct s as [m a adl d dd i idl c sc].
+  destruct m, a, d, i, sc; unf; unf; cbn; cases; cbn; try reflexivity; try discriminate; try lia.
+Qed.
+
+Lemma residue_free_all s : residue_free (result s) = true.
+Proof.
+  unfold result. destruct (cancel s) as [x|]; [|apply residue_free_nc].
+  destruct (at_time (no_cancel s)) as [t|]; [destruct (x <? t)|];
+    first [apply residue_free_cancelled | apply residue_free_nc].
+Qed.
+
 Lemma returned_kind s w :
-  cancel s = None -> out (result s) = ORet w ->
+  cancel s = None -> out (result s) = ORet w -> either (result s) = false ->
   match w with WDirect => direct_ok s = true | WIndirect => indirect_ok s = true end.
 Proof.
-  destruct s as [m a adl d dd i idl c]. cbn. intros ->.
-  destruct m, a, d, i; unf; cbn; cases; cbn; intros H; inversion H; subst; cbn; try reflexivity; try lia; try discriminate.
+  destruct s as [m a adl d dd i idl c sc]. cbn. intros ->.
+  destruct m, a, d, i, sc; unf; cbn; cases; cbn; intros H He; inversion H; subst; cbn; try reflexivity; try lia; try discriminate.
 Qed.
 
-(* select_port (generated): the chosen port is an offered one, non-zero whenever one is offered, its flag says which
-   one it is, and the preference decides when both are offered *)
+(* on a tie with both attempts done either connection may be returned: then both paths work *)
+Lemma returned_either s :
+  cancel s = None -> either (result s) = true -> direct_ok s = true /\ indirect_ok s = true.
+Proof.
+  destruct s as [m a adl d dd i idl c sc]. cbn. intros ->.
+  destruct m, a, d, i, sc; unf; cbn; cases; cbn; intros H; try discriminate; split; try reflexivity; lia.
+Qed.
+
 Lemma select_port_spec pref p o :
   let '(q, obf) := select_port pref p o in
   (obf = true -> q = o) /\ (obf = false -> q = p /\ p <> 0) /\
@@ -114,8 +120,9 @@ Lemma responder_spec c w : responder true c w = PierceSent \/ responder true c w
 Proof. destruct c, w; cbn; tauto. Qed.
 
 Lemma responder_pierce_iff so c w : responder so c w = PierceSent <-> (c = RcOk /\ w = RsOk).
-Proof. destruct so, c, w; cbn; split; intros; try discriminate; try tauto; destruct H; discriminate. Qed.
+Proof.
+  destruct so, c, w; cbn; unfold RESPONDER_REPORTS_WRITE_FAILURE; cbn; split; intros; try discriminate; try tauto; destruct H; discriminate.
+Qed.
 
-(* with the server connection closing, the failure report is silently dropped *)
-Lemma responder_refuted : exists c w, responder false c w = NothingReported.
-Proof. exists RcFail, RsOk. reflexivity. Qed.
+Lemma responder_write_failure : responder true RcOk RsFail = CannotConnectReported.
+Proof. reflexivity. Qed.
